@@ -1,5 +1,10 @@
 package main
 
 func dispatchMore(cmd string, args []string) bool {
+	switch cmd {
+	case "campaign":
+		cmdCampaign(args)
+		return true
+	}
 	return false
 }
